@@ -43,7 +43,17 @@ func (w *World) TransportParams(client bool) ([]refwire.TransportParameter, bool
 	o.mu.Lock()
 	defer o.mu.Unlock()
 	if client {
-		data, _, _, _ := CryptoStream(o.Packets[C2S], "initial")
+		return TransportParamsFrom(o.Packets[C2S], true)
+	}
+	return TransportParamsFrom(o.Packets[S2C], false)
+}
+
+// TransportParamsFrom extracts the quic_transport_parameters from the CRYPTO frames of the given packets of ONE
+// connection and one direction (client: ClientHello in Initial packets; server: EncryptedExtensions in
+// Handshake packets).
+func TransportParamsFrom(pkts []*Packet, client bool) ([]refwire.TransportParameter, bool) {
+	if client {
+		data, _, _, _ := CryptoStream(pkts, "initial")
 		msgs, _ := HandshakeMessages(data)
 		for _, m := range msgs {
 			if m.Type == 1 {
@@ -61,7 +71,7 @@ func (w *World) TransportParams(client bool) ([]refwire.TransportParameter, bool
 		}
 		return nil, false
 	}
-	data, _, _, _ := CryptoStream(o.Packets[S2C], "handshake")
+	data, _, _, _ := CryptoStream(pkts, "handshake")
 	msgs, _ := HandshakeMessages(data)
 	for _, m := range msgs {
 		if m.Type == 8 {
